@@ -312,3 +312,38 @@ Proof.
   pose proof (uvarint_f_bounds buf 0%nat 0 0 ltac:(lia) ltac:(lia) ltac:(cbn; lia)) as H.
   cbn zeta in *. unfold uvarint. destruct H as [H1 H2]. split; intros H; [specialize (H1 H)|specialize (H2 H)]; lia.
 Qed.
+
+(* ---- header.Decode on arbitrary buffers ---- *)
+Lemma slice_from_some buf i b : slice_from buf i = Some b ->
+  (0 <= i <= Z.of_nat (length buf))%Z /\ Z.of_nat (length b) = (Z.of_nat (length buf) - i)%Z.
+Proof.
+  unfold slice_from. destruct ((i <? 0)%Z || (Z.of_nat (length buf) <? i)%Z) eqn:E; [discriminate|].
+  intros [= <-]. rewrite skipn_length. lia.
+Qed.
+
+Lemma uvarint_cnt_le buf : (snd (uvarint buf) <= Z.of_nat (length buf))%Z /\ fst (uvarint buf) < two64.
+Proof.
+  pose proof (uvarint_bounds buf) as [H1 H2]. cbn zeta in *.
+  destruct (Z.ltb_spec 0 (snd (uvarint buf))) as [P|P].
+  - specialize (H1 P). lia.
+  - specialize (H2 P). unfold two64. lia.
+Qed.
+
+(* header.Decode on ANY buffer: when it does not panic, the count it reports never exceeds the buffer
+   and every field is in its Go type's range *)
+Lemma header_decode_bounds buf h n : header_decode buf = Some (h, n) ->
+  (n <= Z.of_nat (length buf))%Z /\ h_klen h < two32 /\ h_vlen h < two32 /\ h_expires h < two64.
+Proof.
+  unfold header_decode. destruct buf as [|m [|u rest]]; try discriminate.
+  set (buf := m :: u :: rest).
+  destruct (slice_from buf 2) as [b1|] eqn:S1; [|discriminate].
+  destruct (uvarint b1) as [klen c1] eqn:U1.
+  destruct (slice_from buf (2 + c1)) as [b2|] eqn:S2; [|discriminate].
+  destruct (uvarint b2) as [vlen c2] eqn:U2.
+  destruct (slice_from buf (2 + c1 + c2)) as [b3|] eqn:S3; [|discriminate].
+  destruct (uvarint b3) as [ex c3] eqn:U3.
+  intros E. injection E as Eh En. subst h. rewrite <- En. clear En. unfold h_klen, h_vlen, h_expires.
+  apply slice_from_some in S3 as [R3 L3].
+  pose proof (uvarint_cnt_le b3) as [C3 X3]. rewrite U3 in C3, X3. cbn [fst snd] in *.
+  split; [change (2 + c1 + c2 + c3 <= Z.of_nat (length buf))%Z; lia|]. split; [apply N.mod_lt; discriminate|]. split; [apply N.mod_lt; discriminate|exact X3].
+Qed.
